@@ -661,7 +661,22 @@ def c11_minmaxpol(R):
         )
         if hits:
             k = util.kw(hits[0], "key")
-            ok = isinstance(k, ast.IfExp) and ast.unparse(k.test) == "signed"
+            # the key is chosen by the `signed` parameter: a conditional expression on it, or a key factory given it
+            sp = "signed"
+            ok = k is not None and ((isinstance(k, ast.IfExp) and ast.unparse(k.test) in (sp, f"not {sp}")) or util.depends_on(k, {sp}, fn))
+            factory = None
+            if isinstance(k, ast.Call) and isinstance(k.func, ast.Name) and k.func.id in m.functions:
+                factory = tree.func(m.path, k.func.id)
+                ok = ok and any(isinstance(t, (ast.If, ast.IfExp)) and sp_ in ast.unparse(t.test) for sp_ in [factory.args.args[[ast.unparse(a) for a in k.args].index(sp)].arg] if sp in [ast.unparse(a) for a in k.args] for t in ast.walk(factory))
+                subs = [x for x in ast.walk(factory) if isinstance(x, ast.BinOp) and isinstance(x.op, ast.Sub) and ("2 **" in ast.unparse(x) or "1 <<" in ast.unparse(x))]
+                R.check(
+                    bool(subs),
+                    m,
+                    factory,
+                    f"ModelCacheMixin.{name}: signed key maps the upper half to negative numbers (v - 2**n)",
+                    f"ModelCacheMixin.{name}: the key factory {factory.name} never subtracts 2**n, so it orders values as unsigned",
+                    construct=f"ModelCacheMixin.{name} signed key",
+                )
             R.check(
                 ok,
                 m,
